@@ -32,6 +32,23 @@ def closure(ctx, fi, prefix="hypergraphx.readwrite", limit=40):
                     if c.module.name.startswith(prefix) and c not in out:
                         out.append(c)
                         todo.append(c)
+        # helpers used as VALUES: a function named in the body, or in a module-level table the body names
+        # (`_RECORDS_BY_TYPE = {"Hypergraph": _plain_records, ...}` ... `_RECORDS_BY_TYPE[t](h)`)
+        from .model import FunctionInfo
+
+        named = []
+        for n in ast.walk(f.node):
+            if isinstance(n, ast.Name) and isinstance(n.ctx, ast.Load):
+                named.append(n.id)
+        for name in list(named):
+            for st in f.module.tree.body:
+                if isinstance(st, (ast.Assign, ast.AnnAssign)) and st.value is not None and any(isinstance(t_, ast.Name) and t_.id == name for t_ in (st.targets if isinstance(st, ast.Assign) else [st.target])):
+                    named += [x.id for x in ast.walk(st.value) if isinstance(x, ast.Name) and isinstance(x.ctx, ast.Load)]
+        for name in named:
+            c = ctx.prog.resolve_name(f.module, name)
+            if isinstance(c, FunctionInfo) and c.module.name.startswith(prefix) and c not in out and len(out) < limit:
+                out.append(c)
+                todo.append(c)
     return out
 
 
